@@ -3,6 +3,9 @@
 // the array that was submitted, for chains of any length and for EVERY content of the descriptor cache) ----
 // Included units: `tree` (RevisionTree, get_parent, tree_wf; includes `rev`) and `patch` (Value, VxError, apply_ops, ops_ok,
 // is_patch_of, make_diff_patch / apply_diff_patch under contract).
+// `ArrayDescriptor::new_from_object` / `to_json_object` are verified from their REAL bodies against small JSON accessor
+// shims (JObj::get/insert/new, Value::as_array/as_bool/from): no assumed contract for the parser itself.
+// `DataStorage::read_object` is a shim (assumed: deterministic read of a stored object).
 
 /// mirror of `struct ArrayDescriptor` (field list checked against /repo on every run)
 pub struct ArrayDescriptor {
@@ -185,7 +188,7 @@ pub open spec fn diff_link(m: RevMap, objs: Objs, base: Revision, d: ArrayDescri
 /// a well-formed chain at an edit-script revision continues at its parent
 pub proof fn lemma_chain_step(m: RevMap, objs: Objs, base: Revision, d: ArrayDescriptor, j: int)
     requires diff_link(m, objs, base, d, j),
-    ensures match anc(m, base, (j + 1) as nat) { Some(q) => chain_ok(m, objs, q), None => true },
+    ensures anc(m, base, (j + 1) as nat).is_some() ==> chain_ok(m, objs, anc(m, base, (j + 1) as nat).unwrap()),
 {
     let a = anc(m, base, j as nat).unwrap();
     assert(anc(m, base, (j + 1) as nat) == parent_of(m, a));
